@@ -95,6 +95,10 @@ pub struct Sub {
     prog: Program,
     /// id bits of the code input of node i
     pub node_keys: Vec<u64>,
+    /// struct id -> (creator node, index among the creator's structs)
+    sp_owner: BTreeMap<u64, (u8, u32)>,
+    pub sp_spec_state: BTreeMap<u64, bool>,
+    pub taint_spec_switch: bool,
 }
 
 fn starts_revision(op: &Op) -> bool {
@@ -103,7 +107,7 @@ fn starts_revision(op: &Op) -> bool {
 
 impl Sub {
     pub fn new(_flags: &Flags, _prog: &Program) -> Sub {
-        Sub { lru: LruModel { cap: 2, ..Default::default() }, ident: Default::default(), intern: Default::default(), prog: _prog.clone(), node_keys: Vec::new() }
+        Sub { lru: LruModel { cap: 2, ..Default::default() }, ident: Default::default(), intern: Default::default(), prog: _prog.clone(), node_keys: Vec::new(), sp_owner: BTreeMap::new(), sp_spec_state: BTreeMap::new(), taint_spec_switch: false }
     }
 
     #[allow(clippy::too_many_arguments)]
@@ -129,6 +133,9 @@ impl Sub {
         }
         if flags.intern {
             self.intern_after_op(log, stats, _rev)?;
+        }
+        if flags.specify {
+            self.specify_after_op(log, _world, stats)?;
         }
         Ok(())
     }
@@ -258,6 +265,72 @@ impl Sub {
         Ok(())
     }
 
+    /// C10: the body of the specifiable function runs only when the reference computes the value.
+    fn specify_after_op(&mut self, log: &[Rec], world: &World, stats: &mut Stats) -> Result<(), (String, String)> {
+        // creator activations in progress: (creator key, index of the next struct)
+        let mut stack: Vec<(F, u64, u32)> = Vec::new();
+        let mut made_now: Vec<u64> = Vec::new();
+        for r in log {
+            match r {
+                Rec::Enter { f, key, .. } => {
+                    if *f == F::Sp {
+                        if self.sp_spec_state.get(key) == Some(&true) {
+                            // the creator specified this key in an earlier revision and no longer
+                            // does: the value switches from assigned to computed
+                            self.taint_spec_switch = true;
+                            self.sp_spec_state.insert(*key, false);
+                        }
+                        if let Some((node, idx)) = self.sp_owner.get(key).copied() {
+                            if let Ok(m) = world.mk_of(node) {
+                                if let Some(s) = m.structs.get(idx as usize) {
+                                    stats.bump("specifiable_bodies_executed", 1);
+                                    if s.spec.is_some() && s.computed_first.is_none() {
+                                        return Err((
+                                            "specified-body-executed".into(),
+                                            format!("the body of the specifiable function ran for struct #{idx} of creator node {node}, for which the creator specifies {:?}", s.spec),
+                                        ));
+                                    }
+                                }
+                            }
+                        }
+                    }
+                    stack.push((*f, *key, 0));
+                }
+                Rec::Made { id, variant, .. } => {
+                    if let Some(fr) = stack.iter_mut().rev().find(|fr| fr.0 == F::Mk) {
+                        if *variant == 0 {
+                            if let Some(node) = self.node_keys.iter().position(|k| *k == fr.1) {
+                                self.sp_owner.insert(*id, (node as u8, fr.2));
+                                made_now.push(*id);
+                            }
+                        }
+                        fr.2 += 1;
+                    }
+                }
+                Rec::Exit { .. } => {
+                    stack.pop();
+                }
+                _ => {}
+            }
+        }
+        // remember, per struct, whether the creator's latest *execution* specified its value
+        let mut cache: BTreeMap<u8, Option<ql::refm::RMk>> = BTreeMap::new();
+        for id in &made_now {
+            let Some((node, idx)) = self.sp_owner.get(id) else { continue };
+            let m = cache.entry(*node).or_insert_with(|| world.mk_of(*node).ok());
+            if let Some(m) = m {
+                if let Some(s) = m.structs.get(*idx as usize) {
+                    // an assigned memo stays in place (stale) when the creator stops specifying it,
+                    // until the body of the specifiable function runs for that key
+                    if s.spec.is_some() && s.computed_first.is_none() {
+                        self.sp_spec_state.insert(*id, true);
+                    }
+                }
+            }
+        }
+        Ok(())
+    }
+
     fn intern_after_op(&mut self, log: &[Rec], stats: &mut Stats, rev: u64) -> Result<(), (String, String)> {
         use ql::items::EvK;
         let m = &mut self.intern;
@@ -288,7 +361,10 @@ impl Sub {
                     }
                     // durability class of this interning
                     let low = if !*in_query {
-                        false
+                        // Outside a query salsa creates a value with maximal durability (never
+                        // reclaimed) but a lookup of an existing value leaves its durability
+                        // alone; the property speaks about interning *by functions* only.
+                        m.info.contains_key(id)
                     } else {
                         // the node whose body is running: first frame with a node key
                         let node_dur = stack.iter().rev().find_map(|(f, key)| match f {
